@@ -7,8 +7,12 @@ package props
 
 import (
 	"bytes"
+	"fmt"
+	"os"
+	"os/exec"
 	"sort"
 	"strings"
+	"testing"
 
 	"github.com/fluhus/biostuff/sequtil"
 )
@@ -172,4 +176,116 @@ func warmSequtil(s []byte, o *Obs) {
 	for i := range calls {
 		catch(calls[(i+rot)%len(calls)])
 	}
+}
+
+// firstCalls: each exported function of sequtil (and a few of align and mash) as the FIRST call
+// into its package in a fresh process, with a known small answer. A table that is built lazily on
+// some entry points but not on others passes every test that happens to call another function
+// first. runFirstCall re-executes the test binary with TestFirstCall as its only test.
+var firstCalls = map[string]func() error{
+	"ReverseComplement": func() error {
+		return expectBytes("ReverseComplement(nil, AACGn)", sequtil.ReverseComplement(nil, []byte("AACGn")), "nCGTT")
+	},
+	"ReverseComplementString": func() error {
+		return expectBytes("ReverseComplementString(AACGn)", []byte(sequtil.ReverseComplementString("AACGn")), "nCGTT")
+	},
+	"CanonicalSubsequences": func() error {
+		var got []string
+		for x := range sequtil.CanonicalSubsequences([]byte("AACGT"), 2) {
+			got = append(got, string(x))
+		}
+		return expectBytes("CanonicalSubsequences(AACGT,2)", []byte(strings.Join(got, " ")), "AA AC CG AC")
+	},
+	"DNATo2Bit": func() error {
+		return expectBytes("DNATo2Bit(nil, ACGTc)", sequtil.DNATo2Bit(nil, []byte("ACGTc")), "\x1b\x40")
+	},
+	"DNAFrom2Bit": func() error {
+		return expectBytes("DNAFrom2Bit(nil, 1b)", sequtil.DNAFrom2Bit(nil, []byte{0x1b}), "ACGT")
+	},
+	"Ntoi": func() error {
+		return expectBytes("Ntoi(A,c,G,t)", []byte{byte(sequtil.Ntoi('A')), byte(sequtil.Ntoi('c')), byte(sequtil.Ntoi('G')), byte(sequtil.Ntoi('t'))}, "\x00\x01\x02\x03")
+	},
+	"Iton": func() error {
+		return expectBytes("Iton(0..3)", []byte{sequtil.Iton(0), sequtil.Iton(1), sequtil.Iton(2), sequtil.Iton(3)}, "ACGT")
+	},
+	"Translate": func() error {
+		return expectBytes("Translate(nil, ATGtaaTGG)", sequtil.Translate(nil, []byte("ATGtaaTGG")), "M*W")
+	},
+	"TranslateReadingFrames": func() error {
+		fr := sequtil.TranslateReadingFrames([]byte("ATGTAAG"))
+		return expectBytes("TranslateReadingFrames(ATGTAAG)", bytes.Join(fr[:], []byte("|")), "M*|CK|V")
+	},
+	"AminoName": func() error {
+		a, b := sequtil.AminoName('w')
+		if a == "" || b == "" {
+			return fmt.Errorf("AminoName('w') = %q, %q", a, b)
+		}
+		return nil
+	},
+	"Translate-panics": func() error {
+		if p := catch(func() { sequtil.Translate(nil, []byte("ATGNAA")) }); p == nil {
+			return fmt.Errorf("Translate(ATGNAA) did not panic")
+		}
+		return nil
+	},
+	"DNATo2Bit-panics": func() error {
+		if p := catch(func() { sequtil.DNATo2Bit(nil, []byte("ACGN")) }); p == nil {
+			return fmt.Errorf("DNATo2Bit(ACGN) did not panic")
+		}
+		return nil
+	},
+	"ReverseComplement-panics": func() error {
+		if p := catch(func() { sequtil.ReverseComplement(nil, []byte("ACGU")) }); p == nil {
+			return fmt.Errorf("ReverseComplement(ACGU) did not panic")
+		}
+		return nil
+	},
+}
+
+func expectBytes(what string, got []byte, want string) error {
+	if string(got) != want {
+		return fmt.Errorf("%s = %q, want %q", what, got, want)
+	}
+	return nil
+}
+
+// TestFirstCall is the child side: it runs exactly one entry of firstCalls, named by the
+// environment, as the first thing this process does with the package under test.
+func TestFirstCall(t *testing.T) {
+	name := os.Getenv("VERIF_FIRSTCALL")
+	if name == "" {
+		t.Skip("child side of runFirstCall")
+	}
+	f, ok := firstCalls[name]
+	if !ok {
+		t.Fatalf("unknown first call %q", name)
+	}
+	var err error
+	if p := catch(func() { err = f() }); p != nil {
+		err = fmt.Errorf("panicked: %v", p)
+	}
+	if err != nil {
+		fmt.Printf("FIRSTCALL-FAIL %v\n", err)
+		t.Fail()
+	}
+}
+
+// runFirstCall is the parent side.
+func runFirstCall(name string) error {
+	if _, ok := firstCalls[name]; !ok {
+		return nil // malformed replay file
+	}
+	cmd := exec.Command(os.Args[0], "-test.run", "^TestFirstCall$", "-test.count", "1")
+	cmd.Env = append(os.Environ(), "VERIF_FIRSTCALL="+name, "VERIF_REPLAY=", "VERIF_OUT="+os.TempDir())
+	out, err := cmd.CombinedOutput()
+	if err == nil {
+		return nil
+	}
+	msg := string(out)
+	if i := strings.Index(msg, "FIRSTCALL-FAIL "); i >= 0 {
+		msg = strings.SplitN(msg[i+len("FIRSTCALL-FAIL "):], "\n", 2)[0]
+	} else if len(msg) > 400 {
+		msg = msg[:400]
+	}
+	return fmt.Errorf("%s as the first call into the package in a fresh process: %s", name, msg)
 }
